@@ -31,6 +31,7 @@ PROPERTY = 'C11'
 LEVEL = 'fault_enumeration'
 EXHAUSTIVE = True
 OUTCOMES = ['4', '5', 'malformed', 'badcode', 'disconnect']
+SINGLE_ONLY = ['stall']          # the peer goes silent at that stage: the attempt must still end (single deviations only)
 
 RULE = ('A: per (SMTP|LMTP, PIPELINING on/off, n=1..3): every single and double deviation {stage: outcome} over stages banner, '
         'ehlo(+500), helo, mail, rcpt_i, data, eod / eod_i, rset, quit x outcomes {4xx,5xx,malformed,bad code,disconnect}; '
@@ -72,6 +73,9 @@ def scripts_for(cfg, max_dev):
             singles.append(('ehlo', '500'))
         if s.startswith('rcpt'):
             singles.append((s, '251'))           # accepted, with a 2xx code other than 250
+    stalls = [(s, 'stall') for s in st if s not in ('quit',)]
+    for s, o in stalls:
+        yield {s: o}
     for s, o in singles:
         yield {s: o}
         if s == 'ehlo' and o == '500':
@@ -107,7 +111,7 @@ def judge_smtp(cfg, script, w):
                     if o in ('2', '500', '251'):
                         continue
                     cls = 'perm' if o == '5' else 'temp'
-                    if o in ('malformed', 'badcode', 'disconnect') and txn == t_index and stage not in ('quit',):
+                    if o in ('malformed', 'badcode', 'disconnect', 'stall') and txn == t_index and stage not in ('quit',):
                         for r in env.recipients:
                             deciding[r].add('temp')
                         continue
@@ -126,7 +130,7 @@ def judge_smtp(cfg, script, w):
             for stage, o, txn in p.log:
                 if o in ('2', '500', '251'):
                     continue
-                if stage in ('banner', 'ehlo', 'helo', 'auth', 'tls') or (stage == 'starttls' and cfg.get('tls_required')):
+                if stage in ('banner', 'ehlo', 'helo', 'auth', 'tls') or (stage == 'starttls' and cfg.get('tls_required')) or (o == 'stall' and stage == 'starttls'):
                     cls = 'perm' if o == '5' else 'temp'
                     if not any(t['sender'].decode('latin-1') == env.sender for t in p.transactions):
                         for r in env.recipients:
